@@ -1,6 +1,6 @@
 from sympy.physics import units
-from sympy.physics.units import convert_to
 from .quantities import Quantity
+from ..convert import convert_to
 
 
 class Celsius:
@@ -33,5 +33,5 @@ def from_kelvin(value: float) -> Celsius:
 
 
 def from_kelvin_quantity(value: Quantity) -> Celsius:
-    kelvin_value = float(convert_to(value, units.kelvin).subs(units.kelvin, 1).evalf())
+    kelvin_value = float(convert_to(value, units.kelvin))
     return from_kelvin(kelvin_value)
